@@ -59,6 +59,9 @@ def _pairs(args):
         keep = ("n", "par", "kids", "top", "dat", "did", "knd", "meta", "typed")
         s0 = {x: s0[x] for x in keep}
         s1 = {x: s1[x] for x in keep}
+        # some input nodes carry metadata of their own (the inputs must come back untouched, meta included)
+        s0["meta"] = [[1] if i % 2 == 0 else [0] for i in range(s0["n"])]
+        s1["meta"] = [[2] if i % 3 == 0 else [0] for i in range(s1["n"])]
         for ordered in (False, True):
             for reduce in (False, True):
                 b0 = core.build(s0, fl, name="t0")
